@@ -142,6 +142,12 @@ theorem holds_by_sentence (L : Layout) (hv : L.valid) (a : Int) (ha : inRange L 
   obtain ⟨h1, h2, h3, h4, _⟩ := (holds L hv a ha).1 m
   exact ⟨h1, h2, h3, h4⟩
 
+/-- `round_to_zero` against its sentence (it cannot overflow, so there is one form) -/
+theorem trunc_by_sentence (L : Layout) (hv : L.valid) (a : Int) (ha : inRange L a) (e : Int) (he : IsTrunc L.f a e) :
+    L.roundToZero a = .ok e false := by
+  rw [trunc_unique L.f a e he]
+  exact (holds L hv a ha).2.1
+
 /-- non-vacuity: −2.5 on a grid of 1 fractional bit (a = −5): floor −3, ceil −2, round −3 (away from zero), ties-to-even −2, to zero −2 -/
 example : exactR 1 .floor (-5) = -6 ∧ exactR 1 .ceil (-5) = -4 ∧ exactR 1 .round (-5) = -6 ∧ exactR 1 .roundEven (-5) = -4 ∧
     truncE 1 (-5) = -4 := by decide
